@@ -107,6 +107,47 @@ static void one_case(unsigned W, size_t off, size_t w, uint64_t val, int prior) 
     }
 }
 
+/* "far": the same isolation case inside a huge sparse stream, at absolute bit
+ * offsets around 2^31 and 2^32 (a stream of more than 256 MiB): the property
+ * says ANY bit offset.  The window [word before][overlap][word after] is
+ * logged with the offset relative to the window, so the trace specification
+ * sees an ordinary "iso" case (the semantics is translation invariant). */
+static uint8_t *far_map;
+static const size_t FAR_BYTES = (1ULL << 29) + (1ULL << 20); /* 2^32 bits + slack */
+static void far_case(unsigned W, uint64_t basebit, size_t off, size_t w, uint64_t val) {
+    if (!far_map) {
+        far_map = mmap(NULL, FAR_BYTES, PROT_READ | PROT_WRITE,
+                       MAP_PRIVATE | MAP_ANONYMOUS | MAP_NORESERVE, -1, 0);
+        if (far_map == MAP_FAILED) {
+            far_map = NULL;
+            return;
+        }
+    }
+    size_t wb = W / 8;
+    size_t overlap = (off + w + W - 1) / W;
+    size_t nwords = overlap + 2;
+    /* basebit is a multiple of W: window starts one word before it */
+    uint8_t *win = far_map + basebit / 8 - wb;
+    uint8_t pre[8 * 5];
+    fill(win, nwords * wb, 2);
+    memcpy(pre, win, nwords * wb);
+    uint64_t got = 0;
+    int f = GUARDED(do_set(W, far_map, basebit + off, w, val));
+    int gf = f ? 0 : GUARDED(got = do_get(W, far_map, basebit + off, w));
+    ev_begin("Bs");
+    ev_str("mode", "iso");
+    ev_int("word", W);
+    ev_int("off", (long long)(W + off));
+    ev_int("width", (long long)w);
+    ev_word("val", val);
+    ev_int("fault", f ? f : gf);
+    put_words("pre", pre, W, nwords);
+    put_words("post", win, W, nwords);
+    ev_word("got", got);
+    ev_int("far", (long long)(basebit >> 20)); /* informational: absolute offset / 2^20 */
+    ev_end();
+}
+
 static void signed_case(unsigned W, unsigned w, int64_t x) {
     int64_t st = 0, back = 0;
     switch (W) {
@@ -165,6 +206,27 @@ int main(int argc, char **argv) {
                             continue;
                         }
                         one_case(W, off, w, vals[vi], prior);
+                    }
+                }
+            }
+        }
+        if (W == 64 || W == 8) {
+            static const uint64_t bases[] = {(1ULL << 31) - 64, 1ULL << 31, (1ULL << 31) + 192,
+                                             3ULL << 30, (1ULL << 32) - 128, 1ULL << 32, (1ULL << 32) + 64};
+            static const size_t widths[] = {1, 2, 7, 8, 9, 31, 32, 33, 63, 64};
+            for (size_t b = 0; b < 7; b++) {
+                for (size_t off = 0; off < W; off++) {
+                    for (size_t k = 0; k < 10; k++) {
+                        size_t w = widths[k];
+                        if (w > W) {
+                            continue;
+                        }
+                        uint64_t ones = w >= 64 ? ~0ULL : ((1ULL << w) - 1);
+                        uint64_t r = rng_u64();
+                        if (idx++ % nshards != shard) {
+                            continue;
+                        }
+                        far_case(W, bases[b], off, w, (b + off + k) % 2 ? ones : (r & ones));
                     }
                 }
             }
